@@ -58,6 +58,7 @@ int fk_polled(const struct pollfd * fds, int n, int fd, short ev);
 extern int fk_accept_hard_errors;
 extern int fk_send_deviated;		/* some send-side answer other than "unlimited space" was given (harness resets it) */
 extern size_t fk_force_space;		/* with fk_force_arrival: bytes of send space granted per poll (0 = unlimited) */
+extern int fk_expect_bind;		/* every connect() must be preceded by bind() on that descriptor */
 extern int fk_force_arrival;		/* no choice points: arrival_menu[0] bytes arrive per poll */
 size_t fk_canon(uint8_t * out, size_t max);
 /* First misuse of the kernel interface by the code under test (NULL if none). */
